@@ -441,6 +441,37 @@ func checkLCMRemap(c *Ctx, res *report.Result, f *ssa.Function) {
 		okBefore := len(fwd) == 1 && reaches(call, fwd[0])
 		res.Check(okMD && okBefore, rule, "handleStream: "+names[key]+" is written to the forwarded metadata before the forwarder is built", instrPos(c.Prog, call), "ok", "the key is set on other metadata, or after the forwarder was created")
 	}
+	// on every path: in LCM mode no way from entry to the forwarder avoids any of the four rewrites
+	// (a "fast path" that leaves the case early forwards the initiator's real shard id instead of s)
+	if len(fwd) == 1 {
+		notLCM := func(a, b *ssa.BasicBlock) bool {
+			iff := lastIfOf(a)
+			if iff == nil || len(a.Succs) != 2 {
+				return false
+			}
+			bo, isB := iff.Cond.(*ssa.BinOp)
+			if !isB || bo.Op != token.EQL {
+				return false
+			}
+			if sv, isS := flow.ConstString(bo.Y); isS && sv == lcmMode(c) {
+				return b == a.Succs[1]
+			}
+			return false
+		}
+		for _, call := range flow.Calls(f) {
+			cc := call.Common()
+			cal := flow.StaticCallee(cc)
+			if cal == nil || cal.Name() != "Set" || !flow.NamedIs(cal.Signature.Recv().Type(), "google.golang.org/grpc/metadata", "MD") {
+				continue
+			}
+			key, _ := flow.ConstString(cc.Args[1])
+			if _, known := want[key]; !known || key == "" {
+				continue
+			}
+			r := flow.FindPath(flow.Point{Block: f.Blocks[0]}, func(x ssa.Instruction) bool { return x == ssa.Instruction(fwd[0]) }, func(x ssa.Instruction) bool { return x == ssa.Instruction(call) }, func(a, b *ssa.BasicBlock) bool { return !notLCM(a, b) })
+			res.Check(!r.Found, rule, "handleStream: "+names[key]+" is rewritten on every LCM-mode path to the forwarder", instrPos(c.Prog, call), "no LCM-mode path skips it", "in LCM mode the forwarder can be built without this rewrite (path "+flow.BlockPath(r.Via)+"): the stream is then forwarded with the initiator's real shard id / the LCM shard id unmapped")
+		}
+	}
 	for k, n := range names {
 		if k != "" && !seen[k] {
 			res.Viol(rule, "handleStream: "+n+" is set from "+want[k], fnPos(c.Prog, f), "the LCM case does not set this metadata key: the local cluster would see the proxy's fake shard id")
